@@ -54,9 +54,13 @@ def _cases(draw):
                        max_senses=2, max_forms=3, meta=False, frames=False, attachments=False,
                        relations=False, form_pool=POOL, pos_pool=('n', 'v', 'a', 's', 'r'),
                        requires=False, allow_no_pos_synset=False)
+    if draw(st.booleans()):
+        # both lexicons use the same entry/sense/synset ids (as two versions of a lexicon do)
+        from dataclasses import replace
+        prof = replace(prof, id_prefix_with_lexicon=False, id_suffix=False)
     res = draw(gen.resources(prof, max_lexicons=2))
     specs = [gen.spec_of(d) for d in res['lexicons']]
-    sel = draw(st.sampled_from([specs[0], ' '.join(specs)]))
+    sel = draw(st.sampled_from([specs[0], ' '.join(specs), ' '.join(specs)]))
     stored = sorted({f['writtenForm'] for lx in res['lexicons'] for e in lx.get('entries', [])
                      if not e.get('external')
                      for f in [e['lemma']] + [x for x in e.get('forms', [])
@@ -242,6 +246,10 @@ def _classify(case):
                 tags.add('exact-hit' if exact == exp else 'normalized-column-hit')
     if len(res['lexicons']) > 1:
         tags.add('two-lexicons')
+        ids = [{e['id'] for e in lx.get('entries', []) if not e.get('external')}
+               for lx in res['lexicons']]
+        if len(specs) > 1 and ids[0] & ids[1]:
+            tags.add('selected-lexicons-share-ids')
         if len(specs) == 1:
             tags.add('unselected-lexicon-present')
     nt = bool(tags & {'exact-hit', 'normalized-column-hit', 'back-off-hit',
@@ -264,5 +272,5 @@ SUBS = [
         fingerprint=lambda c: fingerprint(c),
         require_tags=('exact-hit', 'normalized-column-hit', 'back-off-hit',
                       'miss-with-near-match', 'lem:table', 'lem:morphy', 'lem:morphy-init',
-                      'groups-mixed-hit-and-backoff-only')),
+                      'groups-mixed-hit-and-backoff-only', 'selected-lexicons-share-ids')),
 ]
